@@ -1,6 +1,6 @@
 (* C02 — decoding is total: arbitrary bytes give a value or an error, never a panic.
    Statements only. *)
-From Zvt Require Import Base Length Cp437 Encoding EncodingProps Codec Lookup CodecTotal GenCheck.
+From Zvt Require Import Base Length Cp437 Encoding EncodingProps Codec Lookup CodecTotal CodecSize GenCheck.
 From Zvt.gen Require Import Layouts Tables.
 Open Scope N_scope.
 
@@ -37,6 +37,25 @@ Theorem C02_bcd_exact_or_error : forall w bs,
   bcd_dec w bs = if bcd_acc bs 0 <? 2 ^ (8 * w) then Ok (bcd_acc bs 0, []) else Err IncompleteData.
 Proof. exact bcd_dec_spec. Qed.
 
+(* ALLOCATION.  For EVERY layout, fuel and byte string: what a decoder builds (wsize: characters of every String,
+   bytes of every Vec<u8>, one unit per Vec<T> element, summed over the whole value) is at most (2 + nesting depth)
+   units per byte it CONSUMED — never more than a small multiple of the input *)
+Theorem C02_allocation_bounded_any_layout : forall fuel ls e t tag bs v r,
+  dec fuel ls e t tag bs = Ok (v, r) ->
+  blen r <= blen bs /\ wsize v + Kt t * blen r <= Kt t * blen bs.
+Proof. exact dec_sized. Qed.
+
+(* every shipped command decoder and reply parser (regenerated tables): at most 12 units per byte of the APDU *)
+Theorem C02_shipped_packets_allocation : forall name c i fs fuel bs v r, In (name, Some (c, i), fs) structs ->
+  dec_cmd fuel {| c_class := c; c_instr := i; c_fields := fs |} bs = Ok (v, r) -> wsize v <= 12 * blen bs.
+Proof. exact shipped_packets_sized. Qed.
+Theorem C02_shipped_parsers_allocation : forall name vs fuel bs i v, In (name, vs) enums ->
+  parse_enum fuel vs bs = Ok (i, v) -> wsize v <= 12 * blen bs.
+Proof. exact shipped_parsers_sized. Qed.
+
+Example C02_ex_wsize : wsize (VRec [VStr [65; 66]; VList [VInt 1; VInt 2; VInt 3]; VSome (VBytes [0; 0]); VNone]) = 7.
+Proof. reflexivity. Qed.
+
 Theorem C02_tables_recognised : unrecognised = [].
 Proof. exact no_unrecognised. Qed.
 
@@ -51,3 +70,6 @@ Print Assumptions C02_shipped_containers_total.
 Print Assumptions C02_shipped_parsers_total.
 Print Assumptions C02_bcd_exact_or_error.
 Print Assumptions C02_tables_recognised.
+Print Assumptions C02_allocation_bounded_any_layout.
+Print Assumptions C02_shipped_packets_allocation.
+Print Assumptions C02_shipped_parsers_allocation.
